@@ -8,7 +8,7 @@ use std::{collections::HashMap, fs, num::NonZeroUsize, path::PathBuf, sync::Arc}
 use tokio::sync::{mpsc, oneshot, oneshot::Sender};
 
 use super::edge::Edge;
-use super::node::NodeToInsert;
+use super::node::{extract_json, NodeToInsert};
 use super::query_language::data_model_parser::validate_json_for_entity;
 use super::sqlite_database::WriteStmt;
 use super::system_entities::{self, AllowedPeer, Peer, PeerNodes};
@@ -1311,6 +1311,16 @@ impl GraphDatabase {
 
             match validate_json_for_entity(entity, &node._json) {
                 Ok(_) => {
+                    //full text: indexed like a row written by a local mutation
+                    if entity.enable_full_text {
+                        let mut text = String::new();
+                        let json = node._json.as_deref().unwrap_or("null");
+                        if let Ok(val) = serde_json::from_str::<serde_json::Value>(json) {
+                            let _ = extract_json(&val, &mut text);
+                        }
+                        node_to_insert.index = true;
+                        node_to_insert.node_fts_str = Some(text);
+                    }
                     node_to_insert.entity_name = Some(name);
                     valid_nodes.push(node_to_insert)
                 }
